@@ -423,12 +423,19 @@ class ForestScenario(explore.Scenario):
             self.model_apply(w, f, op, None, dry=True)
         except Exception:
             return True
-        # distinctness must hold for the union of what an IR holds before and
-        # after the call, so that no intermediate step of the operation can
-        # see two attached nodes with one UUID
+        # UUIDs must be distinct per IR before and after the call.  Set
+        # operations over several elements are sequences of element-wise
+        # adds/discards in an unspecified order, so for them distinctness must
+        # also hold for the union of what an IR holds before and after (no
+        # intermediate step may see two attached nodes with one UUID); list
+        # item/slice assignment replaces atomically.
+        transient = op[0] == "set"
         for ir in f.mods:
             seen = set()
-            for n in set(f.subtree(ir)) | set(w.model.subtree(ir)):
+            nodes = set(f.subtree(ir))
+            if transient:
+                nodes |= set(w.model.subtree(ir))
+            for n in nodes:
                 u = w.uuid[n]
                 if u in seen:
                     return False
